@@ -42,6 +42,7 @@ class Table:
         self.calls = 0
         self.budget = budget
         self.user_log = []                  # actions performed by handler scripts
+        self.raw = None                     # list: nested invocation log (only when a check asks for it)
 
 
 T = None  # the chart currently under the processor (one per process at a time)
@@ -58,6 +59,12 @@ def _do_actions(chart, acts, i):
     for a in acts:
         op = a[0]
         T.user_log.append((op,) + tuple(a[1:]) + (i,))
+        if T.raw is not None:
+            if op == "recall":
+                dq = chart.defer_queue
+                T.raw.append(("act", "recall", dq[0].signal_name if len(dq) else None))
+            else:
+                T.raw.append(("act",) + tuple(a))
         if op == "post_fifo":
             chart.post_fifo(Event(signal=SIG[a[1]]))
         elif op == "post_lifo":
@@ -80,6 +87,18 @@ def _do_actions(chart, acts, i):
 
 def _h(i, chart, e):
     t = getattr(chart, "mc_table", None) or T
+    raw = t.raw
+    if raw is None:
+        return _h0(t, i, chart, e)
+    # the harness's own nested invocation log (oracle of C19-C21): every call the processor makes, what it returned,
+    # and the user actions performed in between
+    raw.append(("call", e.signal, i))
+    r = _h0(t, i, chart, e)
+    raw.append(("ret", e.signal, i, r))
+    return r
+
+
+def _h0(t, i, chart, e):
     t.calls += 1
     if t.calls > t.budget:
         raise BudgetExceeded("handler budget")
